@@ -41,9 +41,11 @@ class I:
 
 class Str:
     """&str / &[u8] / String contents: window (off, ln) over a z3 byte array."""
-    __slots__ = ('base', 'off', 'ln', 'is_str', 'cap', 'cbytes', 'abs_cap')
+    __slots__ = ('base', 'off', 'ln', 'is_str', 'cap', 'cbytes', 'abs_cap', 'elems')
 
-    def __init__(self, base, off, ln, is_str=True, cap=None, cbytes=None, abs_cap=None):
+    def __init__(self, base, off, ln, is_str=True, cap=None, cbytes=None, abs_cap=None, elems=None):
+        # elems: optional explicit list of byte terms of the underlying buffer (array-free representation for short strings)
+        self.elems = elems
         # abs_cap: size of the underlying zero-based buffer (enables constant-index enumeration of shifted windows)
         self.abs_cap = abs_cap
         self.base, self.is_str = base, is_str
@@ -60,6 +62,15 @@ class Str:
             if ci is not None:
                 k = (self.off.as_long() + ci) & ((1 << 64) - 1)
                 return z3.BitVecVal(self.cbytes[k] if k < len(self.cbytes) else 0, 8)
+        if self.elems is not None:
+            idx = z3.simplify(self.off + (bv(i) if isinstance(i, int) else i))
+            if z3.is_bv_value(idx):
+                k = idx.as_long()
+                return self.elems[k] if k < len(self.elems) else z3.BitVecVal(0, 8)
+            e = z3.BitVecVal(0, 8)
+            for k in range(len(self.elems) - 1, -1, -1):
+                e = z3.If(idx == k, self.elems[k], e)
+            return e
         if isinstance(i, int):
             i = bv(i)
         return z3.Select(self.base, self.off + i)
